@@ -91,6 +91,20 @@ pub fn panic_location(stderr: &str) -> Option<String> {
     Some(simcore::short_loc(&loc))
 }
 
+/// like `panic_location`, for a panic of the main thread only (a helper thread that dies leaves
+/// its message on stderr as well; whether that matters is for the exit status to tell)
+pub fn main_panic_location(stderr: &str) -> Option<String> {
+    let mut rest = stderr;
+    while let Some(i) = rest.find("panicked at ") {
+        let line_start = rest[..i].rfind('\n').map(|k| k + 1).unwrap_or(0);
+        if rest[line_start..i].starts_with("thread 'main'") {
+            return panic_location(&rest[line_start..]);
+        }
+        rest = &rest[i + 12..];
+    }
+    None
+}
+
 /// stderr with the run-specific parts removed (newer std prints the OS thread id in the panic
 /// line: "thread 'main' (12345) panicked at ...")
 pub fn normalize_stderr(s: &str) -> String {
